@@ -698,3 +698,109 @@ def csv_roundtrip(repo, seed=0, n=150):
 
 
 CHILDREN.update({"csv_roundtrip": csv_roundtrip})
+
+
+# ------------------------------------------------------------------------------------------------
+def generator_shape(repo, seed=0, n=40):
+    """C15 bounded: the real WorkloadGenerator over random parameter sets: every event delivers num_pipelines pipelines with
+    fresh ids and the documented shape; a class with probability 0 never appears; gaps average the configured mean when it
+    spans many ticks; a larger cpu_io_ratio shifts later operators towards the CPU-heavy prototypes."""
+    import random
+    sys.path.insert(0, repo)
+    logging.disable(logging.CRITICAL)
+    from eudoxia.simulator import parse_args_with_defaults
+    from eudoxia.workload import WorkloadGenerator
+    from eudoxia.workload.pipeline import Segment
+    from eudoxia.utils import Priority
+    F = Segment.SCALING_FUNCS
+    protos = [(1, "const", 55), (2, "sqrt", 55), (5, "linear3", 45), (15, "linear3", 37.5), (20, "linear7", 30), (40, "linear7", 20), (80, "squared", 10)]
+    qproto = (15, "linear3", 35)
+    rng = random.Random(seed)
+    problems = []
+
+    def seg_key(sg):
+        law = [k for k, f in F.items() if f == sg.scaling_func]
+        return (sg.baseline_cpu_seconds, law[0] if law else None, sg.storage_read_gb)
+
+    def run(params, max_events, max_ticks):
+        g = WorkloadGenerator(**parse_args_with_defaults(dict(params)))
+        events, t = [], 0
+        while len(events) < max_events and t < max_ticks:
+            out = g.run_one_tick()
+            if out:
+                events.append((t, out))
+            t += 1
+        return events
+
+    def check_events(params, events, tag):
+        seen = set()
+        probs = {Priority.INTERACTIVE: params["interactive_prob"], Priority.QUERY: params["query_prob"], Priority.BATCH_PIPELINE: params["batch_prob"]}
+        for t, out in events:
+            if len(out) != params["num_pipelines"]:
+                problems.append(("pipelines-per-event", tag, len(out), params["num_pipelines"])); return
+            for p in out:
+                if p.pipeline_id in seen:
+                    problems.append(("id-not-fresh", tag, p.pipeline_id)); return
+                seen.add(p.pipeline_id)
+                if probs[p.priority] == 0:
+                    problems.append(("class-with-probability-zero-appeared", tag, p.priority.name)); return
+                ops = list(p.values.node_lookup.values())
+                if p.priority == Priority.QUERY:
+                    if len(ops) != 1 or len(ops[0].get_segments()) != 1 or seg_key(ops[0].get_segments()[0]) != qproto or ops[0].parents:
+                        problems.append(("query-pipeline-shape", tag, len(ops))); return
+                    continue
+                if len(ops) < 1:
+                    problems.append(("non-query-pipeline-without-operators", tag, p.pipeline_id)); return
+                for i, op in enumerate(ops):
+                    if list(op.parents) != ([ops[i - 1]] if i else []):
+                        problems.append(("not-a-chain", tag, p.pipeline_id, i)); return
+                    sg = op.get_segments()
+                    if len(sg) != 1 or seg_key(sg[0]) not in protos or sg[0].memory_gb is not None:
+                        problems.append(("segment-not-a-documented-prototype", tag, p.pipeline_id, i)); return
+                    if i == 0 and seg_key(sg[0]) != protos[0]:
+                        problems.append(("first-operator-not-io-heavy", tag, p.pipeline_id)); return
+
+    triples = [(0.3, 0.1, 0.6), (0, 0, 1), (0, 1, 0), (1, 0, 0), (0.5, 0.5, 0), (0, 0.25, 0.75), (0.3, 0.2, 0.0), (3, 0, 1), (0.06, 0.57, 0.37)]
+    for case in range(n):
+        ip, qp, bp = rng.choice(triples)
+        tps = rng.choice([1, 10, 100, 1000, 100000])
+        params = dict(interactive_prob=ip, query_prob=qp, batch_prob=bp, num_pipelines=rng.choice([1, 2, 5]), num_operators=rng.choice([1, 2, 5, 9]),
+                      waiting_seconds_mean=rng.choice([0.0004, 0.5, 2.5, 10.0, 0.29]), cpu_io_ratio=rng.choice([0, 0.3, 1]),
+                      ticks_per_second=tps, random_seed=rng.randint(0, 10**6))
+        try:
+            events = run(params, 250, 400000)
+        except Exception as e:
+            problems.append(("generator-raised", case, repr(e)[:150])); continue
+        check_events(params, events, case)
+        for cls, pv in ((Priority.INTERACTIVE, ip), (Priority.QUERY, qp), (Priority.BATCH_PIPELINE, bp)):
+            if pv > 0 and pv == ip + qp + bp and any(p.priority != cls for _t, out in events for p in out):
+                problems.append(("class-with-probability-one-not-always", case, cls.name))
+        mean_ticks = int(params["waiting_seconds_mean"] * tps)
+        gaps = [b[0] - a[0] for a, b in zip(events, events[1:])]
+        if any(g < 1 for g in gaps):
+            problems.append(("events-less-than-a-tick-apart", case))
+        expected = params["waiting_seconds_mean"] * tps
+        if expected >= 20 and len(gaps) >= 150:
+            avg = sum(gaps) / len(gaps)
+            if abs(avg - expected) > 0.1 * expected:
+                problems.append(("mean-gap-off", case, avg, expected, tps, params["waiting_seconds_mean"]))
+    # cpu_io_ratio shifts the mix of later operators
+    for sd in range(3):
+        frac = {}
+        for ratio in (0.0, 1.0):
+            params = dict(interactive_prob=0.5, query_prob=0, batch_prob=0.5, num_pipelines=4, num_operators=6, waiting_seconds_mean=1.0,
+                          cpu_io_ratio=ratio, ticks_per_second=1, random_seed=seed * 7 + sd)
+            later = [seg_key(op.get_segments()[0]) for _t, out in run(params, 80, 100000) for p in out
+                     for op in list(p.values.node_lookup.values())[1:]]
+            frac[ratio] = sum(1 for k in later if k[0] >= 20) / max(1, len(later))
+        if not (frac[1.0] > frac[0.0] + 0.15):
+            problems.append(("cpu-io-ratio-does-not-shift-the-mix", sd, frac))
+    kinds = {}
+    for pb in problems:
+        kinds[pb[0]] = kinds.get(pb[0], 0) + 1
+    return {"name": "bounded:generator-shape", "ok": not problems, "bounded": f"{n} random parameter sets x <= 250 events, 3 ratio comparisons",
+            "cases": n, "kinds": kinds, "finding_kinds": sorted(kinds), "witness": [list(map(str, p))[:6] for p in problems[:3]],
+            "detail": "generator output well-formed" if not problems else str(kinds)}
+
+
+CHILDREN.update({"generator_shape": generator_shape})
